@@ -35,6 +35,15 @@ def sweep(binpath, args, timeout=900):
 def hit_from_sweep(prop, binpath, args, line):
     # line: FAILS kanicex <scenario> <values...>   |   FAILS soak PANIC: <message>
     parts = line.split()
+    if parts[1] == 'fuzz':
+        return {
+            'obligation': 'standin/sweep-fuzz',
+            'text': 'long pseudo-random interleaving of all Keyboard operations against three separate real stages',
+            'extra': {
+                'counterexample': {'found_by': 'native sweep `replayer sweep %s`' % ' '.join(args), 'description': line, 'scenario': 'fuzz', 'values': args[1:]},
+                'native_replay': {'cmd': ['sweep'] + args, 'output': line, 'reproduced': True},
+            },
+        }
     if parts[1] == 'soak':
         return {
             'obligation': 'standin/sweep-soak',
@@ -71,13 +80,24 @@ def all_cells(prop, info):
     return ids
 
 
+THOROUGH_EXTRA = {
+    'C07': [['resync4', '2'], ['resync4', '1']],
+    'C18': [['fuzz', '2', '@SEED', '30000000'], ['fuzz', '1', '@SEED', '30000000']],
+    'C08': [['fuzz', '2', '@SEED', '30000000']],
+}
+
+
 def run(prop, tier, known=()):
     """returns (hits, coverage)"""
     info = gen.generate(REPO, os.path.join(VERIF, 'contracts'))
     binpath = native.build(info)
     hits = []
     ran = []
-    for args in SWEEPS.get(prop, []):
+    seed = os.environ.get('VERIF_SEED', '0') or '0'
+    sweeps = list(SWEEPS.get(prop, []))
+    if tier == 'thorough':
+        sweeps += [[a.replace('@SEED', seed) for a in x] for x in THOROUGH_EXTRA.get(prop, [])]
+    for args in sweeps:
         line = sweep(binpath, args)
         ran.append({'sweep': ' '.join(args), 'result': line[:200]})
         if line.startswith('FAILS'):
